@@ -51,8 +51,6 @@ func (r *Router) parseParamRoute(route *Route) (first string) {
 		route.spath = path
 	}
 
-	// "." -> "\."
-	path = quotePointChar(path)
 	argPos := strings.IndexByte(path, '{')
 	optPos := strings.IndexByte(path, '[')
 	minPos := argPos
@@ -74,6 +72,9 @@ func (r *Router) parseParamRoute(route *Route) (first string) {
 			}
 		}
 	}
+
+	// "." -> "\.". Notice: quote after the start string is collected, it is compared with the raw request path.
+	path = quotePointChar(path)
 
 	// has optional char. /blog[/{id}]  -> /blog(?:/{id})
 	if optPos > 0 {
